@@ -193,7 +193,7 @@ EXH_CORE = [
     ["sub", 1, 1800, [R(200, "uuid:b")]],
     ["sub", 1, 600, [R(200, "uuid:a", "Second-infinite")]],          # the same SID granted to another service
     ["sub", 0, 1800, [R(200, None, "Second-300")]],                    # no SID
-    ["sub", 0, 1800, [R(503)]],
+    ["sub", 0, 1800, [R(503, "uuid:c")]],                                # refused, although a SID header is present
     ["resub", "s", 0, 1800, [R(200, "uuid:a", "Second-120")]],
     ["resub", "s", 0, 900, [R(200, "uuid:c")]],                        # answered with a new SID
     ["resub", "i", "uuid:a", 1800, [R(412), R(200, "uuid:d", "Second-60")]],   # refused -> fresh subscription
@@ -207,6 +207,8 @@ EXH_CORE = [
 EXH_MORE = [
     ["sub", 0, 1800, [CONN]],
     ["sub", 1, 1800, [TMO]],
+    ["sub", 1, 1800, [R(404)]],
+    ["resub", "s", 0, 1800, [R(500, "uuid:d", "Second-5"), R(412, "uuid:b")]],   # refusals carrying SID / TIMEOUT headers
     ["sub", 0, 86405, [R(200, "", "1800")]],                          # empty SID; TIMEOUT without Second-
     ["resub", "s", 0, 1800, [R(200, "")]],                             # empty SID on renewal = keep
     ["resub", "s", 1, 1800, [R(404), R(200, None)]],                   # fallback without SID
@@ -240,7 +242,8 @@ def rand_react(rng, renew: bool):
     if c < 11:
         return R(200, None, rng.choice(TMO_HEADERS_OK))
     if c < 15:
-        return R(rng.choice([400, 404, 412, 500, 503, 204, 301]))
+        return R(rng.choice([400, 404, 412, 500, 503, 204, 301]), rng.choice([None, None, rng.choice(SIDS[:4])]),
+                 rng.choice([None, None, "Second-60"]))
     if c < 18:
         return list(CONN)
     return list(TMO)
